@@ -2,6 +2,7 @@
 //! prints one canonical trace per case in the "list of N" wire format of coq/common/Wire.v.
 mod c05;
 mod c15;
+mod c02;
 mod c17;
 mod util;
 
@@ -17,6 +18,7 @@ fn main() {
         "c05" => c05::main(&args),
         "c15" => c15::main(&args),
         "c17" => c17::main(&args),
+        "c02" => c02::main(&args),
         other => {
             eprintln!("unknown property {other}");
             std::process::exit(2);
